@@ -373,6 +373,41 @@ static void part5(Ctx& ctx, uint64_t m) {
   ctx.end_case(true);
 }
 
+// part 6: the accelerated coefficient kernels on very long vectors (one polynomial of 512 KiB / 16 MiB), every 8-byte alignment of the
+// output modulo 32, out of place and in place: bit-identical to the reference kernel (integer data)
+static void part6(Ctx& ctx, uint64_t nn) {
+  typedef void (*bin_f)(uint64_t, int64_t*, const int64_t*, const int64_t*);
+  typedef void (*un_f)(uint64_t, int64_t*, const int64_t*);
+  struct K { const char* name; void* ref; void* acc; int nin; };
+  K ks[] = {{"znx_add_i64", (void*)znx_add_i64_ref, (void*)znx_add_i64_avx, 2}, {"znx_sub_i64", (void*)znx_sub_i64_ref, (void*)znx_sub_i64_avx, 2},
+            {"znx_negate_i64", (void*)znx_negate_i64_ref, (void*)znx_negate_i64_avx, 1}};
+  for (auto& k : ks)
+    for (size_t ro : {0, 8, 16, 24}) for (int al = 0; al < 3; ++al) {
+      if (al == 2 && k.nin < 2) continue;
+      std::string id = sfmt("pair|long vector|%s ref / avx|nn=%llu|res at %zu mod 32|%s", k.name, (unsigned long long)nn, ro, al == 0 ? "out of place" : al == 1 ? "res == a" : "res == b");
+      if (!ctx.want(id)) continue;
+      ctx.begin_case(id);
+      GBuf out[2]; out[0].init(nn * 8, ro); out[1].init(nn * 8, ro);
+      GBuf a(nn * 8, (ro + 8) % 32), b(nn * 8, 16);
+      for (int v = 0; v < 2; ++v) {
+        int64_t* R = out[v].as<int64_t>();
+        int64_t* A = al == 1 ? R : a.as<int64_t>();
+        int64_t* B = al == 2 ? R : b.as<int64_t>();
+        prefill(R, nn * 8, 2);
+        for (uint64_t j = 0; j < nn; ++j) A[j] = probe62(j + 2) / 2;
+        if (k.nin >= 2) for (uint64_t j = 0; j < nn; ++j) B[j] = probe62(j + 1000003) / 2;
+        void* f = v == 0 ? k.ref : k.acc;
+        if (k.nin == 2) ((bin_f)f)(nn, R, A, B); else ((un_f)f)(nn, R, A);
+      }
+      if (memcmp(out[0].p, out[1].p, nn * 8)) {
+        uint64_t j = 0; while (out[0].as<int64_t>()[j] == out[1].as<int64_t>()[j]) ++j;
+        ctx.violation(id, sfmt("coefficient %llu: reference kernel %lld, accelerated kernel %lld", (unsigned long long)j, (long long)out[0].as<int64_t>()[j], (long long)out[1].as<int64_t>()[j]));
+      }
+      if (!out[0].guards_ok() || !out[1].guards_ok() || !a.guards_ok() || !b.guards_ok()) ctx.violation(id, "write outside the nn elements");
+      ctx.end_case(true);
+    }
+}
+
 int main(int argc, char** argv) {
   Args args = parse_args("C07", argc, argv, 420, 1800);
   Ctx ctx(args);
@@ -406,12 +441,14 @@ int main(int argc, char** argv) {
   ctx.parallel(1, [&](uint64_t) { part4(ctx); }, "dispatch identity");
   std::vector<uint64_t> ms5; for (uint64_t m = 1; m <= (th ? 1024u : 64u); m *= 2) ms5.push_back(m);
   ctx.parallel(ms5.size(), [&](uint64_t i) { part5(ctx, ms5[i]); }, "parameterised constructors under every cfg");
+  { std::vector<uint64_t> big = {UINT64_C(1) << 21, UINT64_C(1) << 16}; if (th) big.insert(big.begin(), UINT64_C(1) << 23);
+    ctx.parallel(big.size(), [&](uint64_t i) { part6(ctx, big[i]); }, "coefficient kernels on very long vectors"); }
   ctx.assumptions = {"floating-point kernels are never compared bitwise with each other (FMA contraction differs legitimately): both members must be within the a-priori bound of the exact binary128 result",
                      "exported kernels with no portable reference and no documented semantics (cplx_fftvec_bitwiddle_fma/_avx512, cplx_fftvec_add_fma, cplx_fftvec_sub2_to_fma, cplx_fftvec_copy_fma) cannot be judged by this property and are excluded",
                      "every kernel is called from its minimum size (unroll width); the q120 NTT has only an AVX2 implementation (C03)",
                      "NTT120 dft/idft exist only when avx2 is reported; the cfg override can only hide CPU features"};
   return ctx.finish("exploration",
                     "part 1: every variant group of the exported-kernel table (sizes from the kernel minimum, accelerated variants on 8/16/24-byte offset pointers); part 2: 14 pointwise kernels x m x 3 offsets x 2 value sets, 2 twiddle kernels, reim4 dot products x nrows, "
-                    "8 FFT implementations x m against binary128; part 3: entry-point table x shape box x N under 4 dispatch masks; part 4 (informational): which kernel every constructor selects x m x 4 masks; part 5: parameterised conversion constructors (every log2bound / log2overhead) x m x 4 masks give identical results on non-tie inputs; distinct = distinct case ids",
+                    "8 FFT implementations x m against binary128; part 3: entry-point table x shape box x N under 4 dispatch masks; part 4 (informational): which kernel every constructor selects x m x 4 masks; part 6: znx add / sub / negate ref vs avx on vectors of 2^16 and 2^21 (2^23 thorough) coefficients x 4 output alignments x in / out of place; part 5: parameterised conversion constructors (every log2bound / log2overhead) x m x 4 masks give identical results on non-tie inputs; distinct = distinct case ids",
                     true);
 }
